@@ -281,3 +281,830 @@ def k_from_json_type(R, depth):
         elif o.kind != 'limit':
             R.inconclusive.append(f'from_json_type_inner: {o.kind}: {o.msg}')
     return cands
+
+
+# ---------------------------------------------------------------- token structure helpers
+
+BRACKET = 2   # proc_macro2::Delimiter { Parenthesis, Brace, Bracket, None }
+PAREN = 0
+
+
+def split_attrs(tokens):
+    """leading `#[...]` attributes of a token sequence -> (list of attribute token tuples, rest items)"""
+    items = list(tokens.items)
+    attrs = []
+    i = 0
+    while i + 1 < len(items) and items[i] == ('punct', '#') and items[i + 1][0] == 'group' and items[i + 1][1] == BRACKET:
+        attrs.append(items[i + 1][2].items)
+        i += 2
+    return attrs, items[i:]
+
+
+def attr_name(a):
+    return a[0][1] if a and a[0][0] == 'ident' else None
+
+
+def serde_args(a):
+    """for `serde(...)` attributes: the inner token items"""
+    if attr_name(a) == 'serde' and len(a) == 2 and a[1][0] == 'group' and a[1][1] == PAREN:
+        return a[1][2].items
+    return None
+
+
+def zstr(x):
+    return z3.StringVal(x) if isinstance(x, str) else x
+
+
+def serde_kv(items):
+    """`a, b = "x", c = lit` -> {'a': None, 'b': ('src', '"x"'), 'c': ('lit', ..)} ; None if malformed"""
+    out = {}
+    cur = []
+    parts = []
+    for t in items:
+        if t == ('punct', ','):
+            parts.append(cur)
+            cur = []
+        else:
+            cur.append(t)
+    if cur:
+        parts.append(cur)
+    for p in parts:
+        if not p or p[0][0] != 'ident':
+            return None
+        if len(p) == 1:
+            out[p[0][1]] = None
+        elif len(p) == 3 and p[1] == ('punct', '='):
+            out[p[0][1]] = p[2]
+        else:
+            return None
+    return out
+
+
+# ---------------------------------------------------------------- ExpandedField::render  (C14, C16, C11, C13 site)
+
+# signature (as a nesting code) of the coercion helpers in graphql_client::serde_with; '*' = generic.
+# The check reads the real signatures from the MIR of graphql_client (see checks/C16.py) and overrides this table.
+ID_HELPERS = {
+    '"graphql_client::serde_with::deserialize_id"': 'T',
+    '"graphql_client::serde_with::deserialize_option_id"': 'OT',
+}
+
+def k_render_field(R, maxq, props):
+    """`props`: subset of {'C14','C16','C11','C13'} - which obligations to discharge.
+    Returns candidates; each carries the concrete field description from the model."""
+    req, lst = qual_indices(R)
+    f = R.fn('render', contains='selection.rs:394') if False else None
+    # the impl block of ExpandedField: find `render` whose first parameter is &ExpandedField
+    cands_fn = [fn for n, fn in R.L.funcs.items() if n.endswith('::render') and fn.params and 'ExpandedField' in fn.params[0][1]]
+    if len(cands_fn) != 1:
+        raise V.Unsupported('ExpandedField::render not found')
+    f = cands_fn[0]
+    strategies = R.L.enums['DeprecationStrategy']
+    out = []
+    for n in range(0, maxq + 1):
+        qs = [z3.BitVec(f'rq{n}_{i}', 8) for i in range(n)]
+        gname, rname, ftype, reason = z3.String(f'gname{n}'), z3.String(f'rname{n}'), z3.String(f'ftype{n}'), z3.String(f'reason{n}')
+        has_g, dep1, dep2 = z3.BitVec(f'hasg{n}', 8), z3.BitVec(f'dep1_{n}', 8), z3.BitVec(f'dep2_{n}', 8)
+        flatten, boxed, skip = z3.Bool(f'flatten{n}'), z3.Bool(f'boxed{n}'), z3.Bool(f'skip{n}')
+        strat = z3.BitVec(f'strat{n}', 8)
+        has_strat = z3.BitVec(f'hasstrat{n}', 8)
+
+        def setup(st, B, qs=qs, n=n):
+            for q in qs:
+                st.pc.append(z3.ULT(q, 2))
+            for a, b in zip(qs, qs[1:]):
+                st.pc.append(z3.Not(z3.And(a == req, b == req)))
+            for x in (has_g, dep1, dep2, has_strat):
+                st.pc.append(z3.ULT(x, 2))
+            st.pc.append(z3.ULT(strat, len(strategies)))
+            # representation invariant of the ExpandedField values calculate_selection builds (3 sites):
+            # spread fields are flattened, keyless, `[Required]`, never deprecated and named after a fragment;
+            # only they can be boxed; every other field has a key.
+            if len(qs) == 1:
+                st.pc.append(z3.Implies(flatten, z3.And(has_g == 0, qs[0] == req, dep1 == 0, ftype != z3.StringVal('ID'))))
+            else:
+                st.pc.append(z3.Not(flatten))
+            st.pc.append(z3.Implies(z3.Not(flatten), has_g == 1))
+            st.pc.append(z3.Implies(boxed, flatten))
+            quals = B.slice_of([SymEnum(q, {0: (), 1: ()}) for q in qs])
+            field = B.struct('ExpandedField',
+                             graphql_name=SymEnum(has_g, {0: (), 1: (StrV(gname),)}),
+                             rust_name=Agg(0, [StrV(rname)], 'Cow'),
+                             field_type=Agg(0, [StrV(ftype)], 'Cow'),
+                             field_type_qualifiers=quals,
+                             struct_id=B.newtype('ResponseTypeId', bv(0, 32)),
+                             flatten=flatten,
+                             deprecation=SymEnum(dep1, {0: (), 1: (SymEnum(dep2, {0: (), 1: (StrV(reason),)}),)}),
+                             boxed=boxed)
+            opts = options_value(B, skip_serializing_none=skip,
+                                 deprecation_strategy=SymEnum(has_strat, {0: (), 1: (SymEnum(strat, {i: () for i in range(len(strategies))}),)}))
+            R.vm.push_call(st, f, [B.cell(field), B.cell(opts)], None, None)
+        outs, _ = R.explore('ExpandedField::render', setup)
+        i_allow, i_deny, i_warn = strategies.index('Allow'), strategies.index('Deny'), strategies.index('Warn')
+        eff = z3.If(has_strat == 1, strat, bv(i_warn, 8))      # documented default: warn
+        deprecated = dep1 == 1
+        ref, _adj = ref_nesting(qs, req, lst) if qs else (z3.StringVal('OT'), None)
+        for o in outs:
+            if o.kind == 'panic' or o.kind == 'diverge':
+                m = R.prove('render', o, z3.BoolVal(False), 'panic')
+                if m is not None:
+                    out.append(dict(kernel='render', prop='C17', what=f'{o.kind}: {o.msg}', model=field_model(m, locals())))
+                continue
+            if o.kind != 'return':
+                continue
+            v = o.value
+            claims = {}
+            if isinstance(v, SymEnum):
+                R.inconclusive.append('render returned a symbolic Option')
+                continue
+            is_none = v.variant == 0
+            # C14 (a): omitted exactly when deprecated and deny
+            claims['C14:omitted-iff-deny'] = (z3.And(deprecated, eff == i_deny) if is_none else z3.Not(z3.And(deprecated, eff == i_deny)))
+            if not is_none:
+                toks = v.fields[0]
+                attrs, rest = split_attrs(toks)
+                names = [attr_name(a) for a in attrs]
+                # field declaration:  pub <ident> : <type>
+                ok_decl = len(rest) >= 4 and rest[0] == ('ident', 'pub') and rest[1][0] == 'ident' and rest[2] == ('punct', ':')
+                ident = rest[1][1] if ok_decl else None
+                ty_names = type_chain(Tokens(rest[3:])) if ok_decl else None
+                # --- C14 (b): #[deprecated] iff deprecated and warn; note carries the reason verbatim
+                dep_attrs = [a for a in attrs if attr_name(a) == 'deprecated']
+                has_dep = len(dep_attrs) > 0
+                claims['C14:attr-iff-warn'] = (z3.And(deprecated, eff == i_warn) if has_dep else z3.Not(z3.And(deprecated, eff == i_warn)))
+                if has_dep:
+                    a = dep_attrs[0]
+                    if len(a) == 1:
+                        claims['C14:note'] = dep2 == 0
+                    elif len(a) == 2 and a[1][0] == 'group' and a[1][1] == PAREN:
+                        inner = a[1][2].items
+                        good = len(inner) == 3 and inner[0] == ('ident', 'note') and inner[1] == ('punct', '=') and inner[2][0] == 'lit'
+                        claims['C14:note'] = z3.And(dep2 == 1, zstr(inner[2][1]) == reason) if good else z3.BoolVal(False)
+                    else:
+                        claims['C14:note'] = z3.BoolVal(False)
+                    claims['C14:single'] = z3.BoolVal(len(dep_attrs) == 1)
+                # --- serde attributes
+                sargs = [serde_args(a) for a in attrs if attr_name(a) == 'serde']
+                if any(x is None for x in sargs):
+                    claims['attrs:wellformed'] = z3.BoolVal(False)
+                    sargs = [x for x in sargs if x is not None]
+                kvs = [serde_kv(x) for x in sargs]
+                if any(x is None for x in kvs):
+                    claims['attrs:wellformed'] = z3.BoolVal(False)
+                    kvs = [x for x in kvs if x is not None]
+                merged = {}
+                dup = False
+                for kv in kvs:
+                    for k_, v_ in kv.items():
+                        dup = dup or k_ in merged
+                        merged[k_] = v_
+                claims['attrs:no-duplicate-keys'] = z3.BoolVal(not dup)
+                known = {'rename', 'deserialize_with', 'flatten', 'skip_serializing_if', 'default'}
+                claims['attrs:known-serde-keys'] = z3.BoolVal(set(merged) <= known)
+                renames = [merged['rename']] if 'rename' in merged else []
+                dwith = [merged['deserialize_with']] if 'deserialize_with' in merged else []
+                flat = ['flatten'] if 'flatten' in merged else []
+                others = [n_ for n_ in names if n_ not in ('serde', 'deprecated')]
+                claims['attrs:known'] = z3.BoolVal(not others)
+                # --- C11: wire key is the GraphQL name
+                claims['C11:ident'] = (zstr(ident) == rname) if ident is not None else z3.BoolVal(False)
+                if renames:
+                    r = renames[0]
+                    good = r is not None and r[0] == 'lit'
+                    claims['C11:rename'] = z3.And(has_g == 1, zstr(r[1]) == gname) if good else z3.BoolVal(False)
+                else:
+                    # without rename the wire key is the Rust identifier: only right when it equals the GraphQL name
+                    # (or the field has no key of its own: flattened fragment fields)
+                    claims['C11:rename'] = z3.Or(has_g == 0, gname == rname)
+                claims['flatten'] = flatten if flat else z3.Not(flatten)
+                # --- C13 site: the type is the decorated field type, boxed iff asked
+                code = None
+                if ty_names is not None:
+                    code = ''
+                    for nm in ty_names:
+                        if isinstance(nm, str) and nm in ('Option', 'Vec', 'Box'):
+                            code += {'Option': 'O', 'Vec': 'V', 'Box': 'B'}[nm]
+                        else:
+                            code += 'T'
+                if code is None:
+                    claims['C13:type'] = z3.BoolVal(False)
+                else:
+                    want = z3.If(boxed, z3.Concat(z3.StringVal('B'), ref), ref)
+                    base_ok = zstr(ty_names[-1]) == ftype if not isinstance(ty_names[-1], str) or ty_names[-1] not in ('Option', 'Vec', 'Box') else z3.BoolVal(False)
+                    claims['C13:type'] = z3.And(want == z3.StringVal(code), base_ok)
+                # --- C16: coercion attached to exactly the ID-typed fields, in a form that type-checks
+                is_id = ftype == z3.StringVal('ID')
+                if dwith:
+                    d = dwith[0]
+                    good = d is not None and d[0] == 'src'
+                    helper = d[1] if good else ''
+                    claims['C16:only-id'] = is_id
+                    sig = ID_HELPERS.get(helper)
+                    if sig is None:
+                        claims['C16:helper-known'] = z3.BoolVal(False)
+                    elif sig == '*':
+                        # generic over every Option / Vec nesting of the ID alias
+                        claims['C16:typechecks'] = z3.BoolVal(code is not None and set(code[:-1]) <= set('OV') and code.endswith('T'))
+                    else:
+                        # fn(D) -> Result<sig, _>: the field type must be exactly that
+                        claims['C16:typechecks'] = z3.BoolVal(code == sig)
+                    # a field with `deserialize_with` is *required* unless it also says `default`
+                    # (serde: "missing field"); a nullable ID must accept absence
+                    if code is not None and code.startswith('O'):
+                        claims['C16:absent-is-none'] = z3.BoolVal('default' in merged)
+                else:
+                    claims['C16:all-ids'] = z3.Not(is_id)
+            env = dict(qs=qs, gname=gname, rname=rname, ftype=ftype, reason=reason, has_g=has_g, dep1=dep1, dep2=dep2, flatten=flatten, boxed=boxed,
+                       skip=skip, strat=strat, has_strat=has_strat, req=req, strategies=strategies)
+            by_prop = {}
+            for name, claim in claims.items():
+                pfx = name.split(':')[0]
+                p = pfx if pfx.startswith('C') else 'C01'
+                if p in props:
+                    by_prop.setdefault(p, []).append((name, claim))
+            for p, cl in by_prop.items():
+                m = R.prove('render', o, z3.And(*[c for _, c in cl]), p)
+                if m is not None:
+                    failing = [nm for nm, c in cl if not z3.is_true(m.eval(c, model_completion=True))]
+                    out.append(dict(kernel='render', prop=p, what=failing[0] if failing else p, model=field_model(m, env), tokens=repr(v)[:600]))
+            R.sample(dict(kernel='render', qualifiers=n, returned='None' if is_none else 'Some', claims=sorted(claims)))
+    return out
+
+
+def field_model(m, env):
+    def ev(x):
+        return m.eval(x, model_completion=True)
+    def s(x):
+        v = ev(x)
+        return v.as_string() if z3.is_string_value(v) else str(v)
+    req = env['req']
+    d = dict(qualifiers=['R' if ev(q).as_long() == req else 'L' for q in env['qs']],
+             graphql_name=s(env['gname']) if ev(env['has_g']).as_long() == 1 else None,
+             rust_name=s(env['rname']), field_type=s(env['ftype']),
+             deprecated=ev(env['dep1']).as_long() == 1,
+             reason=s(env['reason']) if ev(env['dep2']).as_long() == 1 else None,
+             flatten=z3.is_true(ev(env['flatten'])), boxed=z3.is_true(ev(env['boxed'])), skip_serializing_none=z3.is_true(ev(env['skip'])),
+             strategy=(env['strategies'][ev(env['strat']).as_long()] if ev(env['has_strat']).as_long() == 1 else None))
+    return d
+
+
+def options_value(B, **over):
+    """a GraphQLClientCodegenOptions value; members a kernel must not look at are opaque"""
+    names = B.L.structs.get('GraphQLClientCodegenOptions')
+    if names is None:
+        raise V.Unsupported('GraphQLClientCodegenOptions not found')
+    dflt = dict(mode=B.variant('CodegenMode', 'Cli'), operation_name=none(), struct_name=none(), struct_ident=none(), variables_derives=none(),
+                response_derives=none(), deprecation_strategy=none(), module_visibility=none(), query_file=none(), schema_file=none(),
+                normalization=B.variant('Normalization', 'None'), custom_scalars_module=none(), extern_enums=VecV(()),
+                fragments_other_variant=mk_bool(False), skip_serializing_none=mk_bool(False), serde_path=Opaque('syn::Path', 'serde'))
+    dflt.update(over)
+    return B.struct('GraphQLClientCodegenOptions', **dflt)
+
+
+# ---------------------------------------------------------------- C11: keyword_replace
+
+# strict + reserved keywords of editions 2015-2021 (The Rust Reference, "Keywords"); harness-side list
+RUST_KEYWORDS_REF = ['as', 'break', 'const', 'continue', 'crate', 'else', 'enum', 'extern', 'false', 'fn', 'for', 'if', 'impl', 'in', 'let',
+                     'loop', 'match', 'mod', 'move', 'mut', 'pub', 'ref', 'return', 'self', 'Self', 'static', 'struct', 'super', 'trait', 'true',
+                     'type', 'unsafe', 'use', 'where', 'while', 'async', 'await', 'dyn', 'abstract', 'become', 'box', 'do', 'final', 'macro',
+                     'override', 'priv', 'typeof', 'unsized', 'virtual', 'yield', 'try']
+
+
+def cow_str(vm, st, v):
+    import summaries
+    return summaries.as_str(vm, st, v)
+
+
+def k_keyword_replace(R):
+    """(a) every reference keyword is escaped (concrete inputs through the real binary search);
+    (b) for an arbitrary string the result is s or s + "_", never a table member, and s + "_" only for members"""
+    f = R.fn('keyword_replace')
+    out = []
+    # (a)
+    for kw in RUST_KEYWORDS_REF + ['fora', 'Type', 'selfish', '', '_', 'r#type', 'zzz', 'A']:
+        def setup(st, B, kw=kw):
+            R.vm.push_call(st, f, [StrV(kw)], None, None)
+        outs, _ = R.explore('keyword_replace(concrete)', setup)
+        for o in outs:
+            if o.kind != 'return':
+                out.append(dict(kernel='keyword_replace', prop='C11', what=f'{o.kind}: {o.msg}', input=kw))
+                continue
+            got = cow_str(R.vm, o.state, o.value).s
+            want = kw + '_' if kw in RUST_KEYWORDS_REF else kw
+            R.obligations += 1
+            if got == want:
+                R.discharged += 1
+            else:
+                out.append(dict(kernel='keyword_replace', prop='C11', what='keyword not escaped' if kw in RUST_KEYWORDS_REF else 'non-keyword changed', input=kw, got=got, want=want))
+    table = getattr(R.vm, 'last_table', None)
+    if getattr(R.vm, 'table_unsorted', None):
+        R.sample(dict(kernel='keyword_replace', note='keyword table is not sorted; binary search emulated on the real table'))
+    # (b)
+    s = z3.String('kw_in')
+
+    def setup2(st, B):
+        R.vm.push_call(st, f, [StrV(s)], None, None)
+    outs, _ = R.explore('keyword_replace(symbolic)', setup2)
+    for o in outs:
+        if o.kind != 'return':
+            m = R.prove('keyword_replace', o, z3.BoolVal(False), 'no panic')
+            if m is not None:
+                out.append(dict(kernel='keyword_replace', prop='C17', what=f'{o.kind}: {o.msg}', input=m.eval(s, model_completion=True).as_string()))
+            continue
+        res = cow_str(R.vm, o.state, o.value).z()
+        member = z3.Or(*[s == z3.StringVal(k) for k in RUST_KEYWORDS_REF])
+        esc = z3.Concat(s, z3.StringVal('_'))
+        # escaping more words than the reference list (e.g. the weak keyword `union`) is harmless
+        claim = z3.And(z3.Or(res == s, res == esc), z3.Implies(member, res == esc),
+                       z3.Not(z3.Or(*[res == z3.StringVal(k) for k in RUST_KEYWORDS_REF])))
+        m = R.prove('keyword_replace', o, claim, 'escape rule')
+        if m is not None:
+            out.append(dict(kernel='keyword_replace', prop='C11', what='escape rule', input=m.eval(s, model_completion=True).as_string(),
+                            got=m.eval(res, model_completion=True).as_string()))
+    R.sample(dict(kernel='keyword_replace', table_size=len(table) if table else None, reference_keywords=len(RUST_KEYWORDS_REF)))
+    return out
+
+
+# ---------------------------------------------------------------- name positions: variables, input fields, @oneOf variants (C11, C04, C13 sites)
+
+def SNAKE_OF(R, x):
+    import summaries
+    return summaries.heck_result(R.vm, 'to_snake_case', x)
+
+
+def CAMEL_OF(R, x):
+    import summaries
+    return summaries.heck_result(R.vm, 'to_upper_camel_case', x)
+
+
+def schema_with(B, scalars=(), inputs=()):
+    """Schema value with the given scalar names and input types [(name, [(field, TypeId, quals)], one_of)]"""
+    sc = VecV([B.struct('StoredScalar', name=StrV(n)) for n in scalars])
+    ins = VecV([B.struct('StoredInputType', name=StrV(n), fields=VecV([Agg(None, [StrV(fn), B.struct('StoredInputFieldType', id=tid, qualifiers=VecV(q))]) for fn, tid, q in fs]),
+                         is_one_of=mk_bool(oo)) for n, fs, oo in inputs])
+    return B.struct('Schema', stored_objects=VecV(()), stored_fields=VecV(()), stored_interfaces=VecV(()), stored_unions=VecV(()),
+                    stored_scalars=sc, stored_enums=VecV(()), stored_inputs=ins, names=B.btreemap([]),
+                    query_type=none(), mutation_type=none(), subscription_type=none())
+
+
+def empty_query(B):
+    return B.struct('Query', fragments=VecV(()), operations=VecV(()), selection_parent_idx=B.btreemap([]), selections=VecV(()), variables=VecV(()))
+
+
+def wire_name_claims(attrs, ident, gql_name, rust_name_expected_any):
+    """claims shared by the three sites: the (serde) wire name of the member is the GraphQL name.
+    Returns dict name -> z3 claim; `ident` is the emitted identifier (python str or z3 string)."""
+    claims = {}
+    merged = {}
+    ok = True
+    for a in attrs:
+        if attr_name(a) == 'serde':
+            kv = serde_kv(serde_args(a) or ())
+            if kv is None:
+                ok = False
+            else:
+                merged.update(kv)
+    claims['attrs:wellformed'] = z3.BoolVal(ok)
+    if 'rename' in merged:
+        r = merged['rename']
+        claims['C11:wire-name'] = zstr(r[1]) == gql_name if (r is not None and r[0] == 'lit') else z3.BoolVal(False)
+    else:
+        claims['C11:wire-name'] = zstr(ident) == gql_name
+    return claims, merged
+
+
+def k_variable_field(R, maxq):
+    """codegen::generate_variable_struct_field: rename / skip_serializing_if / type of a Variables member"""
+    req, lst = qual_indices(R)
+    f = R.fn('generate_variable_struct_field')
+    out = []
+    norms = R.L.enums['Normalization']
+    for n in range(0, maxq + 1):
+        qs = [z3.BitVec(f'vq{n}_{i}', 8) for i in range(n)]
+        vname, tname = z3.String(f'vname{n}'), z3.String(f'tname{n}')
+        skip = z3.Bool(f'vskip{n}')
+        norm = z3.BitVec(f'vnorm{n}', 8)
+
+        def setup(st, B, qs=qs):
+            for q in qs:
+                st.pc.append(z3.ULT(q, 2))
+            for a, b in zip(qs, qs[1:]):
+                st.pc.append(z3.Not(z3.And(a == req, b == req)))
+            st.pc.append(z3.ULT(norm, len(norms)))
+            tid = B.variant('TypeId', 'Scalar', B.newtype('ScalarId', bv(0, 64)))
+            var = B.struct('ResolvedVariable', operation_id=B.newtype('OperationId', bv(0, 32)), name=StrV(vname), default=none(),
+                           type=B.struct('StoredFieldType', id=tid, qualifiers=VecV([SymEnum(q, {0: (), 1: ()}) for q in qs])))
+            schema = schema_with(B, scalars=[tname])
+            bq = B.struct('BoundQuery', query=B.cell(empty_query(B)), schema=B.cell(schema))
+            opts = options_value(B, skip_serializing_none=skip, normalization=SymEnum(norm, {i: () for i in range(len(norms))}))
+            R.vm.push_call(st, f, [B.cell(var), B.cell(opts), B.cell(bq)], None, None)
+        outs, _ = R.explore('generate_variable_struct_field', setup)
+        ref, _adj = ref_nesting(qs, req, lst) if qs else (z3.StringVal('OT'), None)
+        for o in outs:
+            if o.kind != 'return':
+                m = R.prove('variable_field', o, z3.BoolVal(False), 'no panic')
+                if m is not None:
+                    out.append(dict(kernel='variable_field', prop='C17', what=f'{o.kind}: {o.msg}', model=dict(name=m.eval(vname, model_completion=True).as_string())))
+                continue
+            attrs, rest = split_attrs(o.value)
+            ok_decl = len(rest) >= 4 and rest[0] == ('ident', 'pub') and rest[1][0] == 'ident' and rest[2] == ('punct', ':')
+            if not ok_decl:
+                claims = {'C04:decl': z3.BoolVal(False)}
+            else:
+                ident = rest[1][1]
+                claims, merged = wire_name_claims(attrs, ident, vname, None)
+                # the identifier is the escaped snake_case name
+                sn = SNAKE_OF(R, vname)
+                claims['C11:ident'] = z3.Or(zstr(ident) == sn, zstr(ident) == z3.Concat(sn, z3.StringVal('_')))
+                nullable = (qs[0] != req) if qs else z3.BoolVal(True)
+                has_skip = 'skip_serializing_if' in merged
+                claims['C04:skip-none'] = (z3.And(skip, nullable) if has_skip else z3.Not(z3.And(skip, nullable)))
+                if has_skip:
+                    v_ = merged['skip_serializing_if']
+                    claims['C04:skip-fn'] = z3.BoolVal(v_ is not None and v_[0] == 'src' and v_[1] == '"Option::is_none"')
+                claims['attrs:known-serde-keys'] = z3.BoolVal(set(merged) <= {'rename', 'skip_serializing_if'})
+                names = type_chain(Tokens(rest[3:]))
+                code = None
+                if names:
+                    code = ''.join({'Option': 'O', 'Vec': 'V'}.get(x, 'T') if isinstance(x, str) else 'T' for x in names)
+                claims['C13:type'] = (ref == z3.StringVal(code)) if code else z3.BoolVal(False)
+            env = dict(qs=qs, req=req, vname=vname, tname=tname, skip=skip, norm=norm, norms=norms)
+            m = R.prove('variable_field', o, z3.And(*claims.values()), 'variable member')
+            if m is not None:
+                failing = [nm for nm, c in claims.items() if not z3.is_true(m.eval(c, model_completion=True))]
+                out.append(dict(kernel='variable_field', prop=(failing[0].split(':')[0] if failing and failing[0][0] == 'C' else 'C04'), what=failing[0] if failing else '?',
+                                model=dict(qualifiers=['R' if m.eval(q, model_completion=True).as_long() == req else 'L' for q in qs],
+                                           name=m.eval(vname, model_completion=True).as_string(), snake=m.eval(SNAKE_OF(R, vname), model_completion=True).as_string(),
+                                           skip_serializing_none=z3.is_true(m.eval(skip, model_completion=True)),
+                                           normalization=norms[m.eval(norm, model_completion=True).as_long()]),
+                                tokens=repr(o.value)[:500]))
+        R.sample(dict(kernel='variable_field', qualifiers=n, paths=len(outs)))
+    return out
+
+
+# ---------------------------------------------------------------- C12 / C17: recursion of input types
+
+def input_graph(B, st, N, K, qlen, prefix, req, lst, one_of=None):
+    """N input types "I0".."I{N-1}", each with K fields; field (a, j) has a symbolic target
+    (scalar or input t) and `qlen` symbolic qualifiers.  Returns (schema value, vars)"""
+    tgt = [[z3.BitVec(f'{prefix}t{a}_{j}', 32) for j in range(K)] for a in range(N)]
+    isin = [[z3.BitVec(f'{prefix}k{a}_{j}', 8) for j in range(K)] for a in range(N)]
+    qs = [[[z3.BitVec(f'{prefix}q{a}_{j}_{i}', 8) for i in range(qlen)] for j in range(K)] for a in range(N)]
+    i_scalar, i_input = B.vidx('TypeId', 'Scalar'), B.vidx('TypeId', 'Input')
+    inputs = []
+    for a in range(N):
+        fields = []
+        for j in range(K):
+            st.pc.append(z3.ULT(tgt[a][j], N))
+            st.pc.append(z3.Or(isin[a][j] == i_scalar, isin[a][j] == i_input))
+            for q in qs[a][j]:
+                st.pc.append(z3.ULT(q, 2))
+            tid = SymEnum(isin[a][j], {i_scalar: (B.newtype('ScalarId', bv(0, 64)),), i_input: (B.newtype('InputId', tgt[a][j]),)})
+            fields.append((f'f{j}', tid, [SymEnum(q, {0: (), 1: ()}) for q in qs[a][j]]))
+        inputs.append((f'I{a}', fields, False))
+    schema = schema_with(B, scalars=['S'], inputs=inputs)
+    return schema, dict(tgt=tgt, isin=isin, qs=qs, i_input=i_input, lst=lst, N=N, K=K)
+
+
+def graph_reach(g, through_lists=False):
+    """R[a][b]: b reachable from a through >= 1 input edges (only non-list edges unless through_lists)"""
+    N, K = g['N'], g['K']
+
+    def edge(a, b):
+        cs = []
+        for j in range(K):
+            direct = z3.And(g['isin'][a][j] == g['i_input'], g['tgt'][a][j] == b)
+            if not through_lists:
+                direct = z3.And(direct, *[q != g['lst'] for q in g['qs'][a][j]])
+            cs.append(direct)
+        return z3.Or(*cs)
+    D = [[edge(a, b) for b in range(N)] for a in range(N)]
+    Rm = D
+    for _ in range(N):
+        Rm = [[z3.Or(Rm[a][b], *[z3.And(Rm[a][c], D[c][b]) for c in range(N)]) for b in range(N)] for a in range(N)]
+    return Rm
+
+
+def graph_of_model(m, g):
+    N, K = g['N'], g['K']
+    out = []
+    for a in range(N):
+        fs = []
+        for j in range(K):
+            if m.eval(g['isin'][a][j], model_completion=True).as_long() == g['i_input']:
+                t = f"I{m.eval(g['tgt'][a][j], model_completion=True).as_long()}"
+            else:
+                t = 'Int'
+            ql = ['L' if m.eval(q, model_completion=True).as_long() == g['lst'] else 'R' for q in g['qs'][a][j]]
+            fs.append((f'f{j}', graphql_type_expr(ql, t)))
+        out.append((f'I{a}', fs))
+    return out
+
+
+def k_input_recursion(R, N, K, qlen):
+    req, lst = qual_indices(R)
+    f = R.fn('input_is_recursive_without_indirection')
+    out = []
+    for target in range(N):
+        holder = {}
+
+        def setup(st, B, target=target):
+            schema, g = input_graph(B, st, N, K, qlen, f'g{N}{K}{target}_', req, lst)
+            holder['g'] = g
+            R.vm.push_call(st, f, [B.newtype('InputId', bv(target, 32)), B.cell(schema)], None, None)
+        outs, _ = R.explore(f'input_is_recursive_without_indirection(N={N},K={K})', setup)
+        if not outs:
+            continue
+        g = holder['g']
+        reach = graph_reach(g)[target][target]
+        for o in outs:
+            if o.kind == 'return':
+                m = R.prove('input_recursion', o, o.value == reach, f'target {target}')
+                if m is not None:
+                    out.append(dict(kernel='input_recursion', prop='C12', what='box decision differs from "lies on a list-free cycle"', target=f'I{target}',
+                                    got=str(m.eval(o.value, model_completion=True)), graph=graph_of_model(m, g)))
+            elif o.kind == 'limit':
+                m = R.vm.model(o.state)
+                out.append(dict(kernel='input_recursion', prop='C17', what=f'recursion does not terminate within the bound: {o.msg}', target=f'I{target}',
+                                graph=graph_of_model(m, g) if m else None))
+            else:
+                m = R.prove('input_recursion', o, z3.BoolVal(False), 'no panic')
+                if m is not None:
+                    out.append(dict(kernel='input_recursion', prop='C17', what=f'{o.kind}: {o.msg}', target=f'I{target}', graph=graph_of_model(m, g)))
+        R.sample(dict(kernel='input_recursion', types=N, fields_per_type=K, qualifiers=qlen, target=f'I{target}', paths=len(outs)))
+    return out
+
+
+# ---------------------------------------------------------------- C17: termination of the recursive walks
+
+def used_types_value(B, pre=()):
+    return B.struct('UsedTypes', types=Opaque('set', tuple(pre)), fragments=Opaque('set', ()))
+
+
+def k_used_input_ids(R, N, K):
+    """StoredInputType::used_input_ids_recursive on every input graph: must terminate and mark exactly the reachable inputs"""
+    req, lst = qual_indices(R)
+    f = R.fn('used_input_ids_recursive')
+    R.vm.loop_watch = ['used_input_ids_recursive']
+    out = []
+    for start in range(N):
+        holder = {}
+
+        def setup(st, B, start=start):
+            schema, g = input_graph(B, st, N, K, 0, f'u{N}{K}{start}_', req, lst)
+            holder['g'] = g
+            holder['B'] = B
+            sp = B.cell(schema)
+            # as ResolvedVariable::collect_used_types does: the variable's own type is inserted first
+            ut = B.cell(used_types_value(B, pre=[B.variant('TypeId', 'Input', B.newtype('InputId', bv(start, 32)))]))
+            holder['ut'] = ut
+            inputs_idx = R.L.structs['Schema'].index('stored_inputs')
+            R.vm.push_call(st, f, [Ptr(sp.cell, (inputs_idx, ('i', start))), ut, sp], None, None)
+        outs, _ = R.explore(f'used_input_ids_recursive(N={N},K={K})', setup)
+        if not outs:
+            continue
+        g = holder['g']
+        reach = graph_reach(g, through_lists=True)
+        for o in outs:
+            if o.kind in ('loop', 'limit'):
+                m = R.vm.model(o.state)
+                out.append(dict(kernel='used_input_ids', prop='C17', what=o.msg, start=f'I{start}', graph=graph_of_model(m, g) if m else None))
+            elif o.kind == 'return':
+                # every reachable input type is in the set afterwards
+                ut = R.vm.load(o.state, holder['ut'])
+                types = ut.fields[R.L.structs['UsedTypes'].index('types')].data
+                B = holder['B']
+                i_input = g['i_input']
+                claims = []
+                for b in range(N):
+                    present = []
+                    for t in types:
+                        if isinstance(t, Agg) and t.variant == i_input:
+                            present.append(t.fields[0].fields[0] == bv(b, 32))
+                        elif isinstance(t, SymEnum):
+                            present.append(z3.And(t.discr == i_input, t.cases[i_input][0].fields[0] == bv(b, 32)))
+                    has = z3.Or(*present) if present else z3.BoolVal(False)
+                    want = reach[start][b] if b != start else z3.BoolVal(True)
+                    claims.append(has == z3.Or(want, b == start))
+                m = R.prove('used_input_ids', o, z3.And(*claims), 'closure of used inputs')
+                if m is not None:
+                    out.append(dict(kernel='used_input_ids', prop='C02', what='set of used input types is not the reachable set', start=f'I{start}', graph=graph_of_model(m, g)))
+            else:
+                m = R.prove('used_input_ids', o, z3.BoolVal(False), 'no panic')
+                if m is not None:
+                    out.append(dict(kernel='used_input_ids', prop='C17', what=f'{o.kind}: {o.msg}', start=f'I{start}', graph=graph_of_model(m, g)))
+        R.sample(dict(kernel='used_input_ids', types=N, fields_per_type=K, start=f'I{start}', paths=len(outs)))
+    R.vm.loop_watch = []
+    return out
+
+
+# ---------------------------------------------------------------- fragment / selection graphs (C17, C12, C06)
+
+def fragment_graph(B, st, F, S, prefix, nest=False, first_abstract=False):
+    """F fragments, each with S top-level selections of symbolic kind:
+    Typename | FragmentSpread(f) | Field.  With `nest`, every top-level Field carries one child
+    selection of symbolic kind (Typename | FragmentSpread(f) | leaf Field).  `on` of each fragment is
+    symbolic among Interface(0), Union(0), Object(0).  Returns (query value, vars)."""
+    kinds = B.L.enums['Selection']
+    i_field, i_inline, i_spread, i_typename = (kinds.index(x) for x in ('Field', 'InlineFragment', 'FragmentSpread', 'Typename'))
+    tkinds = B.L.enums['TypeId']
+    sel_kind = [[z3.BitVec(f'{prefix}sk{f}_{s}', 8) for s in range(S)] for f in range(F)]
+    sel_tgt = [[z3.BitVec(f'{prefix}st{f}_{s}', 32) for s in range(S)] for f in range(F)]
+    ch_kind = [[z3.BitVec(f'{prefix}ck{f}_{s}', 8) for s in range(S)] for f in range(F)]
+    ch_tgt = [[z3.BitVec(f'{prefix}ct{f}_{s}', 32) for s in range(S)] for f in range(F)]
+    on_kind = [z3.BitVec(f'{prefix}on{f}', 8) for f in range(F)]
+    selections = []
+    frags = []
+    parents = []
+    sid = lambda n: B.newtype('SelectionId', bv(n, 32))
+    for f in range(F):
+        allowed = ('Interface', 'Union') if (first_abstract and f == 0) else ('Object', 'Interface', 'Union')
+        st.pc.append(z3.Or(*[on_kind[f] == tkinds.index(x) for x in allowed]))
+        ids = []
+        for s in range(S):
+            st.pc.append(z3.Or(sel_kind[f][s] == i_field, sel_kind[f][s] == i_spread, sel_kind[f][s] == i_typename))
+            st.pc.append(z3.ULT(sel_tgt[f][s], F))
+            children = ()
+            my_index = len(selections)
+            if nest:
+                st.pc.append(z3.Or(ch_kind[f][s] == i_field, ch_kind[f][s] == i_spread, ch_kind[f][s] == i_typename))
+                st.pc.append(z3.ULT(ch_tgt[f][s], F))
+                leaf = B.struct('SelectedField', alias=none(), field_id=B.newtype('StoredFieldId', bv(0, 64)), selection_set=VecV(()))
+                child = SymEnum(ch_kind[f][s], {i_field: (leaf,), i_spread: (B.newtype('ResolvedFragmentId', ch_tgt[f][s]),), i_typename: ()})
+                children = (sid(my_index + 1),)
+            field = B.struct('SelectedField', alias=none(), field_id=B.newtype('StoredFieldId', bv(0, 64)), selection_set=VecV(children))
+            selections.append(SymEnum(sel_kind[f][s], {i_field: (field,), i_spread: (B.newtype('ResolvedFragmentId', sel_tgt[f][s]),), i_typename: ()}))
+            ids.append(sid(my_index))
+            if nest:
+                selections.append(child)
+        on = SymEnum(on_kind[f], {tkinds.index('Object'): (B.newtype('ObjectId', bv(0, 32)),), tkinds.index('Interface'): (B.newtype('InterfaceId', bv(0, 64)),),
+                                  tkinds.index('Union'): (B.newtype('UnionId', bv(0, 64)),)})
+        frags.append(B.struct('ResolvedFragment', name=StrV(f'F{f}'), on=on, selection_set=VecV(ids)))
+    q = B.struct('Query', fragments=VecV(frags), operations=VecV(()), selection_parent_idx=B.btreemap([]), selections=VecV(selections), variables=VecV(()))
+    return q, dict(sel_kind=sel_kind, sel_tgt=sel_tgt, ch_kind=ch_kind, ch_tgt=ch_tgt, nest=nest, on_kind=on_kind, F=F, S=S, i_field=i_field, i_spread=i_spread,
+                   i_typename=i_typename, tkinds=tkinds)
+
+
+def fragments_of_model(m, g):
+    names = {g['tkinds'].index('Object'): 'Obj', g['tkinds'].index('Interface'): 'Iface', g['tkinds'].index('Union'): 'Uni'}
+    out = []
+    for f in range(g['F']):
+        on = names[m.eval(g['on_kind'][f], model_completion=True).as_long()]
+        sels = []
+        for s in range(g['S']):
+            k = m.eval(g['sel_kind'][f][s], model_completion=True).as_long()
+            if k == g['i_typename']:
+                sels.append('__typename')
+            elif k == g['i_spread']:
+                sels.append(f"...F{m.eval(g['sel_tgt'][f][s], model_completion=True).as_long()}")
+            elif g.get('nest'):
+                ck = m.eval(g['ch_kind'][f][s], model_completion=True).as_long()
+                if ck == g['i_typename']:
+                    sels.append('field{__typename}')
+                elif ck == g['i_spread']:
+                    sels.append(f"field{{...F{m.eval(g['ch_tgt'][f][s], model_completion=True).as_long()}}}")
+                else:
+                    sels.append('field{leaf}')
+            else:
+                sels.append('leaf')
+        out.append(dict(name=f'F{f}', on=on, selections=sels))
+    return out
+
+
+def k_typename_search(R, F, S):
+    """validation::selection_set_contains_type_name on every fragment graph: must terminate"""
+    f = R.fn('selection_set_contains_type_name')
+    R.vm.loop_watch = ['selection_set_contains_type_name']
+    out = []
+    holder = {}
+
+    def setup(st, B):
+        q, g = fragment_graph(B, st, F, S, f'ty{F}{S}_', first_abstract=True)
+        holder['g'] = g
+        qp = B.cell(q)
+        fi = R.L.structs['Query'].index('fragments')
+        frag0 = Ptr(qp.cell, (fi, ('i', 0)))
+        rf = R.L.structs['ResolvedFragment']
+        on = R.vm.load(st, Ptr(frag0.cell, frag0.path + (rf.index('on'),)))
+        ssp = Ptr(frag0.cell, frag0.path + (rf.index('selection_set'),), ('slice', 0, S))
+        R.vm.push_call(st, f, [on, ssp, qp], None, None)
+    outs, _ = R.explore(f'selection_set_contains_type_name(F={F},S={S})', setup)
+    g = holder.get('g')
+    for o in outs:
+        if o.kind in ('loop', 'limit'):
+            m = R.vm.model(o.state)
+            out.append(dict(kernel='typename_search', prop='C17', what=o.msg, fragments=fragments_of_model(m, g) if m else None))
+        elif o.kind != 'return':
+            m = R.prove('typename_search', o, z3.BoolVal(False), 'no panic')
+            if m is not None:
+                out.append(dict(kernel='typename_search', prop='C17', what=f'{o.kind}: {o.msg}', fragments=fragments_of_model(m, g)))
+        else:
+            R.obligations += 1
+            R.discharged += 1
+    R.sample(dict(kernel='typename_search', fragments=F, selections_per_fragment=S, paths=len(outs)))
+    R.vm.loop_watch = []
+    return out
+
+
+def one_field_schema(B):
+    tid = B.variant('TypeId', 'Scalar', B.newtype('ScalarId', bv(0, 64)))
+    fld = B.struct('StoredField', name=StrV('leaf'), type=B.struct('StoredFieldType', id=tid, qualifiers=VecV(())),
+                   parent=B.variant('StoredFieldParent', 'Object', B.newtype('ObjectId', bv(0, 32))), deprecation=none())
+    return B.struct('Schema', stored_objects=VecV(()), stored_fields=VecV([fld]), stored_interfaces=VecV(()), stored_unions=VecV(()),
+                    stored_scalars=VecV([B.struct('StoredScalar', name=StrV('S'))]), stored_enums=VecV(()), stored_inputs=VecV(()), names=B.btreemap([]),
+                    query_type=none(), mutation_type=none(), subscription_type=none())
+
+
+def k_collect_used_types(R, F, S):
+    """Selection::collect_used_types from a spread of F0 over every (nested) fragment graph: terminates,
+    and afterwards every fragment reachable through spreads is recorded as used"""
+    cands_fn = [fn for n, fn in R.L.funcs.items() if n.endswith('::collect_used_types') and fn.params and 'Selection' in fn.params[0][1]]
+    if len(cands_fn) != 1:
+        raise V.Unsupported('Selection::collect_used_types not found')
+    f = cands_fn[0]
+    R.vm.loop_watch = ['collect_used_types']
+    out = []
+    holder = {}
+
+    def setup(st, B):
+        q, g = fragment_graph(B, st, F, S, f'cu{F}{S}_', nest=True)
+        holder['g'] = g
+        bq = B.struct('BoundQuery', query=B.cell(q), schema=B.cell(one_field_schema(B)))
+        ut = B.cell(used_types_value(B))
+        holder['ut'] = ut
+        start = B.cell(B.variant('Selection', 'FragmentSpread', B.newtype('ResolvedFragmentId', bv(0, 32))))
+        R.vm.push_call(st, f, [start, ut, B.cell(bq)], None, None)
+    outs, _ = R.explore(f'Selection::collect_used_types(F={F},S={S})', setup)
+    g = holder.get('g')
+    for o in outs:
+        if o.kind in ('loop', 'limit'):
+            m = R.vm.model(o.state)
+            out.append(dict(kernel='collect_used_types', prop='C17', what=o.msg, fragments=fragments_of_model(m, g) if m else None))
+        elif o.kind != 'return':
+            m = R.prove('collect_used_types', o, z3.BoolVal(False), 'no panic')
+            if m is not None:
+                out.append(dict(kernel='collect_used_types', prop='C17', what=f'{o.kind}: {o.msg}', fragments=fragments_of_model(m, g)))
+        else:
+            # reachable fragments (through top-level and nested spreads) are all recorded
+            ut = R.vm.load(o.state, holder['ut'])
+            frs = ut.fields[R.L.structs['UsedTypes'].index('fragments')].data
+            F_ = g['F']
+
+            def edge(a, b):
+                cs = []
+                for s_ in range(g['S']):
+                    cs.append(z3.And(g['sel_kind'][a][s_] == g['i_spread'], g['sel_tgt'][a][s_] == b))
+                    cs.append(z3.And(g['sel_kind'][a][s_] == g['i_field'], g['ch_kind'][a][s_] == g['i_spread'], g['ch_tgt'][a][s_] == b))
+                return z3.Or(*cs)
+            D = [[edge(a, b) for b in range(F_)] for a in range(F_)]
+            Rm = D
+            for _ in range(F_):
+                Rm = [[z3.Or(Rm[a][b], *[z3.And(Rm[a][c], D[c][b]) for c in range(F_)]) for b in range(F_)] for a in range(F_)]
+            claims = []
+            for b in range(F_):
+                has = z3.Or(*[x.fields[0] == bv(b, 32) for x in frs]) if frs else z3.BoolVal(False)
+                want = z3.BoolVal(True) if b == 0 else Rm[0][b]
+                claims.append(has == want)
+            m = R.prove('collect_used_types', o, z3.And(*claims), 'used fragments = reachable fragments')
+            if m is not None:
+                out.append(dict(kernel='collect_used_types', prop='C02', what='set of used fragments is not the reachable set', fragments=fragments_of_model(m, g)))
+    R.sample(dict(kernel='collect_used_types', fragments=F, selections_per_fragment=S, paths=len(outs)))
+    R.vm.loop_watch = []
+    return out
+
+
+def k_fragment_is_recursive(R, F, S):
+    """fragments::fragment_is_recursive == "the fragment's own selection tree contains a spread of itself" (decides Box on spreads)"""
+    f = R.fn('fragment_is_recursive')
+    out = []
+    for target in range(F):
+        holder = {}
+
+        def setup(st, B, target=target):
+            q, g = fragment_graph(B, st, F, S, f'fr{F}{S}{target}_', nest=True)
+            holder['g'] = g
+            R.vm.push_call(st, f, [B.newtype('ResolvedFragmentId', bv(target, 32)), B.cell(q)], None, None)
+        outs, _ = R.explore(f'fragment_is_recursive(F={F},S={S})', setup)
+        g = holder.get('g')
+        if not outs:
+            continue
+        own = []
+        for s_ in range(S):
+            own.append(z3.And(g['sel_kind'][target][s_] == g['i_spread'], g['sel_tgt'][target][s_] == target))
+            own.append(z3.And(g['sel_kind'][target][s_] == g['i_field'], g['ch_kind'][target][s_] == g['i_spread'], g['ch_tgt'][target][s_] == target))
+        want = z3.Or(*own)
+        for o in outs:
+            if o.kind == 'return':
+                m = R.prove('fragment_is_recursive', o, o.value == want, f'fragment F{target}')
+                if m is not None:
+                    out.append(dict(kernel='fragment_is_recursive', prop='C12', what='recursion flag differs from "own tree spreads itself"', target=f'F{target}',
+                                    got=str(m.eval(o.value, model_completion=True)), fragments=fragments_of_model(m, g)))
+            elif o.kind in ('loop', 'limit'):
+                m = R.vm.model(o.state)
+                out.append(dict(kernel='fragment_is_recursive', prop='C17', what=o.msg, fragments=fragments_of_model(m, g) if m else None))
+            else:
+                m = R.prove('fragment_is_recursive', o, z3.BoolVal(False), 'no panic')
+                if m is not None:
+                    out.append(dict(kernel='fragment_is_recursive', prop='C17', what=f'{o.kind}: {o.msg}', fragments=fragments_of_model(m, g)))
+    R.sample(dict(kernel='fragment_is_recursive', fragments=F, selections_per_fragment=S))
+    return out
